@@ -72,6 +72,7 @@ def cells(tier, seed):
     for d in days:
         for h in range(24):
             out.append({"k": "tod", "date": list(d), "hour": h})
+        out.append({"k": "api", "date": list(d)})
     if tier != "quick":
         # the same round trip as ONE floating point obligation per day over all 86400 times (cvc5)
         for d in [(1900, 1, 1), (2017, 4, 5), (2026, 10, 3)]:
@@ -194,6 +195,23 @@ def run(ctx, cell):
                             ctx.fail("C17:time-of-day:round-trip-loses-the-second",
                                      {"date": src.isoformat(), "back": back.isoformat()})
         return [bad]
+    if k == "api":
+        # the same conversions through the language: date(decimal(x)), date(int(x)), int / decimal of a date
+        ctx.reach("tod")
+        y, m, d = cell["date"]
+        h = ctx.choice("h", 24)
+        mi = (0, 30, 59)[ctx.choice("mi", 3)]
+        se = (0, 59)[ctx.choice("s", 2)]
+        src = V.ValueDate(_dt.datetime(y, m, d, h, mi, se))
+        day = V.ValueDate(_dt.datetime(y, m, d))
+        out = run_ckl("[date(decimal(x)) == x, date(int(x)) == day, int(x) == int(day), decimal(x) >= int(x), "
+                      "decimal(x) < int(x) + 1, date(decimal(day)) == day]", {"x": src, "day": day})
+        detail = lambda: {"date": str(src), "got": ctx.plain(out)}
+        if out.kind != "ok":
+            ctx.fail("C17:api:%s:%s" % (out.kind, out.hostname() or "runtime-error"), detail)
+            return out
+        ctx.check(str(out.value) == "[TRUE, TRUE, TRUE, TRUE, TRUE, TRUE]", "C17:api:number-and-date-conversions-not-inverse", detail)
+        return out
     if k == "arith":
         ctx.reach("arith")
         m = cell["m"]
